@@ -29,15 +29,42 @@ MAIN = "roughenough_server::main"
 
 
 def thread_entries(ctx, W):
-    """[(closure path, spawn block, in_loop)] for closures passed to thread spawn in main."""
+    """[(closure path, spawn context)] for every thread spawn of the server binary (see lib.spawn_contexts)."""
+    from lib import spawn_contexts
     main = ctx.fn(MAIN)
     out = []
-    for bb, t in main.calls():
-        if callee_name(t["fn"].get("path", "")) in ("spawn", "spawn_unchecked") and "thread" in t["fn"].get("path", ""):
-            for c in t.get("closures", []):
-                if not c.startswith("fn:"):
-                    out.append((c, bb, bool(main.in_loop(bb))))
+    for d in spawn_contexts(ctx, W):
+        if d["entry"]:
+            out.append((d["entry"], d, d["looped"]))
     return main, out
+
+
+def caller_bound(ctx, W, f, term, depth=0):
+    """`term` of function / closure f with f's parameters (and, for closures, captured values) replaced by what the single caller passes."""
+    P = ctx.prog
+    if depth > 3 or not isinstance(term, tuple):
+        return term
+    if "{closure" in f.path:
+        sites = P.closure_sites(f.path)
+        if not sites:
+            return term
+        o = sites[0][0]
+        oev = W.ev(o.path)
+        for b2, t2 in o.calls():
+            if f.path in (t2.get("closures") or []):
+                for a in oev.call_args(b2):
+                    if isinstance(a, tuple) and a and a[0] == "closure" and a[1] == f.path:
+                        ups = a[2]
+                        mapping = {("field", ("param", f.path, 1), str(i)): W.expand(u) for i, u in enumerate(ups)}
+                        term = W.subst(term, mapping)
+                return caller_bound(ctx, W, o, term, depth + 1)
+        return term
+    cs = P.callers(f.path)
+    if len(cs) != 1:
+        return term
+    cp, cbb = cs[0]
+    args = [W.expand(x) for x in W.ev(cp).call_args(cbb)]
+    return caller_bound(ctx, W, P.fns[cp], W.bind_params(term, f.path, args), depth + 1)
 
 
 def run(ctx):
@@ -52,7 +79,7 @@ def run(ctx):
 
     # ------------------------------------------------------------------ (1) binds reachable per worker
     nb = 0
-    for (clo, sb, inloop) in worker_entries:
+    for (clo, d_, inloop) in worker_entries:
         reach, ext, parent = P.reach([clo])
         for fnp in sorted(reach):
             fn = P.fns[fnp]
@@ -78,24 +105,19 @@ def run(ctx):
     ctx.record("per-worker-bind", "inventory", True, "%d bind call(s) reachable from the worker entry" % nb, nontrivial=False)
 
     # ------------------------------------------------------------------ (4) worker provisioning (and the UDP socket of each worker)
-    mev = W.ev(main.path)
-    for (clo, sb, inloop) in worker_entries:
-        loops = main.in_loop(sb)
-        lp = min(loops, key=lambda l: len(l["body"]))
-        nxt = [bb for bb, t in main.calls() if bb in lp["body"] and callee_name(t["fn"].get("path", "")) == "next" and "Range" in t["fn"].get("path", "")]
-        okr = False
-        if nxt:
-            src = W.expand(mev.call_args(nxt[0])[0])
-            while isinstance(src, tuple) and src[0] == "reader":
-                src = src[1]
-            okr = src[0] == "agg" and str(src[1]).endswith("Range::Range") and src[2][0] == ("int", 0) and values.contains(src[2][1], lambda s: is_call(s) and s[1].endswith("ServerConfig::num_workers"))
-        ctx.check("worker-provisioning", "loop-is-0..num_workers", okr, "the spawn loop runs 0..config.num_workers()", "the spawn loop does not iterate 0..num_workers", main.loc(sb))
-        binds = [bb for bb, t in main.calls() if bb in lp["body"] and strip_generics(t["fn"].get("path", "")).endswith("bind_socket")]
-        ctx.check("worker-provisioning", "socket-bound-per-iteration", len(binds) == 1 and main.dominates(binds[0], sb), "each iteration binds its own socket before spawning",
-                  "the worker socket is not bound once per iteration", main.loc(sb))
-        b = mev.call_args(sb)[0]
-        named = (is_call(b) and strip_generics(b[1]).endswith("Builder::name")) or values.contains(b, lambda s: is_call(s) and strip_generics(s[1]).endswith("Builder::name"))
-        ctx.check("worker-provisioning", "thread-named", named, "each worker thread is named", "worker threads are spawned without a name", main.loc(sb))
+    for (clo, d, inloop) in worker_entries:
+        f, fev, sb = d["fn"], d["ev"], d["bb"]
+        src = d["range"]
+        okr = isinstance(src, tuple) and src and src[0] == "agg" and str(src[1]).endswith("Range::Range") and src[2][0] == ("int", 0) and \
+            (values.contains(src[2][1], lambda s_: is_call(s_) and s_[1].endswith("ServerConfig::num_workers")) or
+             values.contains(caller_bound(ctx, W, f, src[2][1]), lambda s_: is_call(s_) and s_[1].endswith("ServerConfig::num_workers")))
+        ctx.check("worker-provisioning", "loop-is-0..num_workers", okr, "the workers are spawned for 0..config.num_workers()", "the spawn loop does not iterate 0..num_workers", f.loc(sb))
+        binds = [bb for bb, t in f.calls() if bb in d["body"] and strip_generics(t["fn"].get("path", "")).endswith("bind_socket")]
+        ctx.check("worker-provisioning", "socket-bound-per-iteration", len(binds) == 1 and f.dominates(binds[0], sb), "each iteration binds its own socket before spawning",
+                  "the worker socket is not bound once per iteration", f.loc(sb))
+        b = fev.call_args(sb)[0]
+        named = (is_call(b) and strip_generics(b[1]).endswith("Builder::name")) or values.contains(b, lambda s_: is_call(s_) and strip_generics(s_[1]).endswith("Builder::name"))
+        ctx.check("worker-provisioning", "thread-named", named, "each worker thread is named", "worker threads are spawned without a name", f.loc(sb))
     bs = ctx.fn("roughenough_server::bind_socket")
     bev = W.ev(bs.path)
     for bb, t in bs.calls():
